@@ -356,7 +356,9 @@ def finish(pid, tier, seed, m, crashed, timeouts, nshards, wall):
         'rule': prop.rule + ((' Added workload classes: ' + prop.rule_added) if getattr(prop, 'rule_added', '') else '') +
                 ('' if not getattr(prop, 'object_histories', True) else
                  ' In every check 15% of the monitor objects get a prehistory the properties declare harmless (online: '
-                'a few updates with other values, then reset(); offline: an evaluate() on other data first).'),
+                'a few updates with other values, possibly one failing part-way, then reset(); offline: an evaluate() on other data '
+                 'first, possibly failing or under half the sampling period which is then set back; a re-parse A,B,A; a '
+                 'neighbour object with a confusable configuration driven first).'),
         'samples': m['samples'][:6] or [{'note': 'no case generated'}],
         'exhaustive': False,
         'stats': m['stats'],
